@@ -87,7 +87,7 @@ Program(pre, c) ==
 
 CaseSet == { [pre |-> pre, c |-> c] : pre \in Pres, c \in Ks }
 Cases == SetToSeq(CaseSet)
-Picked == 1..(Len(Cases) + 1)
+Picked == 1..(Len(Cases) + 2)
 Init == GenInit(v_lvl, v_idx)
 Next == GenNext(v_lvl, v_idx, Picked, 32)
 
@@ -95,13 +95,20 @@ Next == GenNext(v_lvl, v_idx, Picked, 32)
    its own blocks and the parent's body *)
 ChildTpls == ("t" :> <<ExtendsS(StrE("base")), SetS("x", StrE("one")), SetCap("y", <<Text("cap"), PrintS(NameE("x"))>>), BlockS("b", <<PrintS(NameE("x")), Text("+"), PrintS(NameE("y"))>>)>>)
              @@ ("base" :> <<Text("["), BlockS("b", <<Text("none")>>), Text("/"), PrintS(NameE("x")), Text("]")>>)
+(* ... and to the extends tag itself when they stand above it *)
+Child2Tpls == ("t" :> <<SetS("layout", StrE("base")), SetS("x", StrE("one")), ExtendsS(NameE("layout")), BlockS("b", <<PrintS(NameE("x")), Text("+"), PrintS(NameE("layout"))>>)>>)
+              @@ ("base" :> <<Text("["), BlockS("b", <<Text("none")>>), Text("/"), PrintS(NameE("x")), Text("]")>>)
+              @@ ("other" :> <<Text("OTHER")>>)
+IsChild2 == v_idx = Len(Cases) + 2
 IsChild == v_idx = Len(Cases) + 1
-Cur == Cases[IF IsChild THEN 1 ELSE v_idx]
-Ref == IF IsChild THEN Execute(ChildTpls, "t", Ctx) ELSE Execute(Tpl1("t", Program(Cur.pre, Cur.c)), "t", Ctx)
-Out == v_lvl < 2 \/ (IF IsChild THEN Emit(RenderVec("C07-child", "childset", ChildTpls, "t", Ctx, [collide |-> FALSE]))
+Cur == Cases[IF IsChild \/ IsChild2 THEN 1 ELSE v_idx]
+Ref == IF IsChild2 THEN Execute(Child2Tpls, "t", Ctx @@ ("layout" :> Str(S2B("other")))) ELSE IF IsChild THEN Execute(ChildTpls, "t", Ctx) ELSE Execute(Tpl1("t", Program(Cur.pre, Cur.c)), "t", Ctx)
+Out == v_lvl < 2 \/ (IF IsChild2 THEN Emit(RenderVec("C07-child2", "childset", Child2Tpls, "t", Ctx @@ ("layout" :> Str(S2B("other"))), [collide |-> FALSE]))
+                    ELSE IF IsChild THEN Emit(RenderVec("C07-child", "childset", ChildTpls, "t", Ctx, [collide |-> FALSE]))
                     ELSE Emit(RenderVec("C07-" \o ToString(v_idx), Cur.c.kind, Tpl1("t", Program(Cur.pre, Cur.c)), "t", Ctx,
                                    [collide |-> \E q \in 1..Len(Cur.pre) : Cur.pre[q].name \in Cur.c.locals])))
-ChildSetVisible == (v_lvl = 2 /\ IsChild) => (Ref.status = "ok" /\ MainOut(Ref) = S2B("[one+capone/one]"))
+ChildSetVisible == /\ (v_lvl = 2 /\ IsChild) => (Ref.status = "ok" /\ MainOut(Ref) = S2B("[one+capone/one]"))
+                   /\ (v_lvl = 2 /\ IsChild2) => (Ref.status = "ok" /\ MainOut(Ref) = S2B("[one+base/one]"))
 
 --------------------------------------------------------------------------
 ProbeScope(S, tag) == LET ps == SelectSeq(S.log, LAMBDA ev : ev.e = "probe" /\ ev.k = Str(S2B(tag))) IN
@@ -109,22 +116,22 @@ ProbeScope(S, tag) == LET ps == SelectSeq(S.log, LAMBDA ev : ev.e = "probe" /\ e
 ProbeScopes(S, tag) == SelectSeq(S.log, LAMBDA ev : ev.e = "probe" /\ ev.k = Str(S2B(tag)))
 
 (* names the body did not assign are exactly as they were *)
-FrameRule == (v_lvl = 2 /\ ~IsChild) =>
+FrameRule == (v_lvl = 2 /\ ~IsChild /\ ~IsChild2) =>
   LET S == Ref  pre == ProbeScope(S, "pre")  post == ProbeScope(S, "post") IN
   S.status = "ok" /\ \A nm \in DOMAIN pre : nm \notin Cur.c.assigned => (nm \in DOMAIN post /\ post[nm] = pre[nm])
 (* names that did not exist before and were bound inside a loop or macro call are undefined again *)
-FreshNamesUndefinedAfter == (v_lvl = 2 /\ ~IsChild /\ Cur.c.scoped) =>
+FreshNamesUndefinedAfter == (v_lvl = 2 /\ ~IsChild /\ ~IsChild2 /\ Cur.c.scoped) =>
   LET S == Ref  pre == ProbeScope(S, "pre")  post == ProbeScope(S, "post") IN
   \A nm \in (Cur.c.locals \cup Cur.c.assigned) : nm \notin DOMAIN pre => nm \notin DOMAIN post
 (* a set at template level (also inside an if) is visible to everything that follows *)
-TemplateSetPersists == (v_lvl = 2 /\ ~IsChild /\ ~Cur.c.scoped) =>
+TemplateSetPersists == (v_lvl = 2 /\ ~IsChild /\ ~IsChild2 /\ ~Cur.c.scoped) =>
   LET S == Ref  post == ProbeScope(S, "post") IN \A nm \in Cur.c.assigned : nm \in DOMAIN post
 (* a set inside a loop body to an existing, unshadowed outer variable updates it *)
-OuterSetUpdates == (v_lvl = 2 /\ ~IsChild /\ Cur.c.kind = "for" /\ Cur.c.stmts[1].x.k = "arr" /\ Cur.c.stmts[1].x.els # <<>>) =>
+OuterSetUpdates == (v_lvl = 2 /\ ~IsChild /\ ~IsChild2 /\ Cur.c.kind = "for" /\ Cur.c.stmts[1].x.k = "arr" /\ Cur.c.stmts[1].x.els # <<>>) =>
   LET S == Ref  pre == ProbeScope(S, "pre")  post == ProbeScope(S, "post")  ins == ProbeScopes(S, "in") IN
   \A nm \in Cur.c.assigned : nm \in DOMAIN pre => (nm \in DOMAIN post /\ post[nm] = ins[Len(ins)].scope[nm])
 (* inside the construct its own names shadow outer ones *)
-LocalsShadow == (v_lvl = 2 /\ ~IsChild /\ Cur.c.kind = "for" /\ Cur.c.stmts[1].x.k = "arr" /\ Cur.c.stmts[1].x.els # <<>>) =>
+LocalsShadow == (v_lvl = 2 /\ ~IsChild /\ ~IsChild2 /\ Cur.c.kind = "for" /\ Cur.c.stmts[1].x.k = "arr" /\ Cur.c.stmts[1].x.els # <<>>) =>
   LET S == Ref  ins == ProbeScopes(S, "in") IN
   Len(ins) = 2 /\ ins[1].scope[Cur.c.stmts[1].vn] = IntV(10) /\ ins[2].scope[Cur.c.stmts[1].vn] = IntV(20)
 =============================================================================
